@@ -231,6 +231,43 @@ pub fn load_known() -> KnownFindings {
     }
 }
 
+/// the binary that child-process slices start: this executable, or (under a fuzz target) the one named by VCHECK_CHILD_EXE
+pub fn child_exe() -> PathBuf {
+    match std::env::var("VCHECK_CHILD_EXE") {
+        Ok(p) if !p.is_empty() => PathBuf::from(p),
+        _ => std::env::current_exe().expect("current_exe"),
+    }
+}
+
+/// bytes of a libFuzzer input as tape words (little endian, last word zero-padded)
+pub fn words_from_bytes(data: &[u8]) -> Vec<u32> {
+    data.chunks(4)
+        .map(|c| {
+            let mut b = [0u8; 4];
+            b[..c.len()].copy_from_slice(c);
+            u32::from_le_bytes(b)
+        })
+        .collect()
+}
+
+/// One execution of a coverage-guided target: the input bytes are the choice tape of the property's generator, the
+/// property's own oracle judges the case. A failure whose signature is an open known finding is ignored (the search
+/// continues), any other failure panics - libFuzzer saves the input, `--from-fuzz` re-judges it in the strict replay path.
+pub fn fuzz_one<P: Property>(prop: &P, data: &[u8]) {
+    static OPEN: std::sync::OnceLock<HashSet<String>> = std::sync::OnceLock::new();
+    let open = OPEN.get_or_init(|| load_known().findings.iter().filter(|f| f.status == "open").map(|f| f.signature.clone()).collect());
+    let words = words_from_bytes(data);
+    let ctx = Ctx::standalone("fuzz");
+    let mut tape = Tape::new(&words);
+    let case = prop.generate(&mut tape, &ctx);
+    let mut obs = Obs::default();
+    if let Err(f) = prop.check(&case, &ctx, &mut obs) {
+        if !open.contains(&f.signature) {
+            panic!("{} oracle: {} :: {}", prop.id(), f.signature, f.message);
+        }
+    }
+}
+
 // ---------------------------------------------------------------------------------------------
 // statistics
 
@@ -376,7 +413,13 @@ fn shard_search<P: Property>(
         ..Config::default()
     };
     let mut runner = TestRunner::new(config);
-    let strategy = proptest::collection::vec(any::<u32>(), 4..prop.tape_len().max(8));
+    // three quarters of the tapes have full length (the generator never runs out of choices), the rest a uniform
+    // shorter length (the tail of the case is decoded from zeros, i.e. from the simplest alternatives)
+    let full = prop.tape_len().max(8);
+    let strategy = proptest::prop_oneof![
+        1 => proptest::collection::vec(any::<u32>(), 4..full),
+        3 => proptest::collection::vec(any::<u32>(), full..=full),
+    ];
     let failed = std::cell::Cell::new(false);
     let stats_cell = std::cell::RefCell::new(stats);
     let last_failure: std::cell::RefCell<Option<(P::Case, Failure)>> = std::cell::RefCell::new(None);
@@ -400,6 +443,10 @@ fn shard_search<P: Property>(
             write_slot(&slot, st.evaluations, st.nontrivial.len() as u64, &case);
         }
         let mut obs = Obs::default();
+        if tape.exhausted() {
+            // the generator wanted more choices than the tape holds: the rest of the case was decoded from zeros
+            obs.label("tape-exhausted");
+        }
         let result = run_one(prop, &case, ctx, &mut obs);
         if !failed.get() {
             record(&mut stats_cell.borrow_mut(), &case, &obs);
